@@ -57,6 +57,13 @@ CHECKS = {
             "alias == base, MIME-independence of routed extensions, and read_file dispatch observed through stubs on real temp files.",
             "Trusts the README tables as the specification of routing; Windows path semantics are not observable on this host.",
             "DESIGN.md §8 C07"),
+    "C09": ("exploration",
+            "CPython audit-hook file-system monitor (open/mkdir/remove/rename/link/chmod/utime/scandir/rmtree/mkdtemp..., dir_fd resolved via /proc/self/fd), canary files, result scan, private-TMPDIR post-state, x 4 consumer behaviours",
+            "Archives in 23 layouts over a hostile member-name grammar (absolute, ../ chains, mixed separators, drive letters, empty, very long, unicode, names of existing host files, tar symlink/hardlink/device/fifo members, "
+            "7z entries with and without data streams, hidden/fork/nested/unsupported/oversize members), also byte-mutated, are consumed by exhausting, closing early, abandoning and failing in the consumer; every audit event whose "
+            "resolved path lies outside the worker's private TMPDIR, a changed canary, canary or host-file text in a result, a non-empty TMPDIR afterwards, or a result from a member that must be skipped is a violation.",
+            "stat()/exists() carry no audit event; interpreter-internal read-only opens (*.py/*.pyc/*.so, mimetypes tables) are excluded.",
+            "DESIGN.md §8 C09"),
     "C10": ("exploration",
             "reference-writer archives (zipfile, tarfile, independent 7z writer) over generated member documents; ordered comparison of read_archive results with stand-alone extraction of each member",
             "For 23 layouts (ZIP stored/deflated, TAR plain/gz/bz2/xz, 7z Copy/LZMA/LZMA2 x solid/one-folder-per-file/pairs x plain/encoded header, mixed coders) archives of 0..10 generated documents with "
@@ -82,6 +89,13 @@ CHECKS = {
             "unit-level images must be a sub-view of the document iterator and coincide for page/slide/sheet formats.",
             "Same generators as C02; vlib/gen/images.py writes valid minimal raster containers.",
             "DESIGN.md §8 C14"),
+    "C16": ("exploration",
+            "stdlib-generated RFC 5322/MIME messages and mboxrd mailboxes with unique tokens; per-field oracle on read_eml/read_mbox results, eml-vs-mbox cross-check, attachments vs direct extraction",
+            "Messages over random header sets, RFC 2047 B/Q words in five charsets, folded headers, address lists with quoted commas and groups, four transfer encodings, nested multiparts and 0..4 attachments "
+            "(incl. fixture documents and nested .eml) are extracted through both carriers; subject, addresses with display names, date (as an instant), message-id, bodies, attachment name/type/bytes, mailbox count/order/boundaries "
+            "and iterate_supported_attachments() vs extracting the attached bytes directly are compared exactly (CRLF/LF and the writer's own >From escaping are transport).",
+            "No exactness claim for .msg (no independent writer): the two fixtures are only run through the accessors.",
+            "DESIGN.md §8 C16"),
     "C17": ("exploration",
             "grammar-generated HTML bodies with unique visible/hidden tokens through four carriers (html, mhtml, epub chapter, MSG html-to-text helper) in sandboxed workers; token oracle",
             "A grammar of visible blocks interleaved with removable elements (script/style/noscript/iframe/object/embed/applet, comments) whose content ranges over text, void tags, self-closing forms, "
